@@ -142,6 +142,10 @@ func runC10(r *R) {
 				// a request written to a kept-alive connection the peer has just closed fails without a response
 				acc[key(0, false, false)] = true
 			}
+			if sp.TLSHang {
+				// the connection this request needed may be one whose TLS handshake never completes: a timeout, net code 110
+				acc[key(0, false, true)] = true
+			}
 			if sp.ConnFaults != "" {
 				// the request may never have reached the peer
 				acc[key(0, false, false)] = true
